@@ -24,7 +24,7 @@ from __future__ import annotations
 import ast
 import itertools
 import re
-from typing import Any, Dict, List, Optional, Sequence, Set, Tuple
+from typing import Any, Dict, Iterator, List, Optional, Sequence, Set, Tuple
 
 from engine.fold import EnumMember, Folder, FoldError
 from engine.model import AnalysisError, Program, base_names, dotted, walk_no_nested
@@ -187,6 +187,13 @@ def dangling_colon(tokens: List[str]) -> Optional[int]:
     return None
 
 
+def _ancestors(mod: Any, node: ast.AST) -> Iterator[ast.AST]:
+    cur = mod.parents.get(node)
+    while cur is not None:
+        yield cur
+        cur = mod.parents.get(cur)
+
+
 def run(ctx: Any, prog: Program) -> None:
     db = prog.module('_engine_db')
     fgd = prog.module('fgd')
@@ -199,6 +206,9 @@ def run(ctx: Any, prog: Program) -> None:
     ctx.rule('C16.Q3', 'text name tables and keywords agree between FGD writer and parser', floor=25)
     ctx.rule('C16.Q4', 'text writers: no dangling colon, quoted slots escaped, long strings not cut inside an escape, parser options', floor=40)
     ctx.rule('C16.Q5', 'lazy block parsing only fills placeholders with fresh objects, is idempotent, and is shared by get_fgd', floor=8)
+
+    from rules.c16_helpers import q6_helper_args
+    q6_helper_args(ctx, prog)
 
     # ---- Q1 --------------------------------------------------------------------------------------------------
     vt = ffold.enum_table('ValueTypes')
@@ -346,6 +356,25 @@ def run(ctx: Any, prog: Program) -> None:
         ctx.check('C16.Q2', len(listed) <= 128, db, node, f'{tbl} has {len(listed)} entries; the index shares a byte with a flag bit', func='<module>', text=f'{tbl} fits 7 bits')
         idx = db.global_assign(tbl.replace('_ORDER', '_INDEX'))
         ctx.shape('C16.Q2', ast.unparse(idx) == f'{{val: ind for ind, val in enumerate({tbl})}}', db, idx, f'{tbl.replace("_ORDER", "_INDEX")} must be the enumeration of {tbl}', func='<module>', text=f'{tbl} index table')
+    # the coded value is the stored field itself: <X>_INDEX[obj.field] on the writing side, <X>_ORDER[<int expr>] used as-is on the reading side
+    n_idx = 0
+    for tblname in ('VALUE_TYPE', 'FILE_TYPE'):
+        for sub in ast.walk(db.tree):
+            if True:
+                fn_name = next((a.name for a in _ancestors(db, sub) if isinstance(a, (ast.FunctionDef, ast.AsyncFunctionDef))), '<module>')
+                if fn_name == '<module>' or not (isinstance(sub, ast.Subscript) and isinstance(sub.ctx, ast.Load) and dotted(sub.value) in (tblname + '_INDEX', tblname + '_ORDER')):
+                    continue
+                n_idx += 1
+                if dotted(sub.value).endswith('_INDEX'):
+                    plain = dotted(sub.slice) is not None and '.' in dotted(sub.slice)
+                    ctx.check('C16.Q2', plain, db, sub, f'`{ast.unparse(sub)}`: the index written is not that of the stored field but of a value derived from it, so the reader reconstructs something else',
+                              func=fn_name, text=f'{tblname}_INDEX of a plain field')
+                else:
+                    par = db.parents.get(sub)
+                    direct = isinstance(par, (ast.Assign, ast.AnnAssign, ast.keyword, ast.Return)) or (isinstance(par, ast.Call) and sub in par.args)
+                    ctx.check('C16.Q2', direct, db, sub, f'`{ast.unparse(par)[:70]}`: the decoded member is transformed before it is stored', func=fn_name, text=f'{tblname}_ORDER result stored as-is')
+    if n_idx < 7:
+        raise AnalysisError(f'only {n_idx} uses of the *_INDEX / *_ORDER tables found (7 confirmed by hand)')
     ef = fold.enum_table('EntFlags')
     ent_types = ffold.enum_table('EntityTypes')
     mask = ef.members['MASK_TYPE'].value
@@ -426,7 +455,10 @@ def run(ctx: Any, prog: Program) -> None:
     for kw_ in sorted(written_dir):
         ctx.check('C16.Q3', kw_ in compared_dir, fgd, ee, f'EntityDef.export writes the directive `{kw_}` but EntityDef.parse only recognises {sorted(compared_dir)}', func='EntityDef.export', text=f'keyword {kw_}')
     ctx.shape('C16.Q3', "file.write('\\n\\thalfgridsnap')" in ees and hvals.get('HALF_GRID_SNAP') == 'halfgridsnap', fgd, ee, 'keyword `halfgridsnap`: written literally, parsed as HelperTypes.HALF_GRID_SNAP', func='EntityDef.export', text='keyword halfgridsnap')
-    ctx.shape('C16.Q3', 'HelperTypes(token_value)' in eps and "file.write(f'\\n\\t{helper.TYPE.value}(" in ees, fgd, ee, 'helpers are written by HelperTypes value and parsed by HelperTypes(value)', func='EntityDef.export', text='helper name coding')
+    fmt_type = any(isinstance(c, ast.Call) and dotted(c.func) == 'file.write' and c.args and isinstance(c.args[0], ast.JoinedStr)
+                   and any(isinstance(v, ast.FormattedValue) and dotted(v.value) == 'helper.TYPE.value' for v in c.args[0].values)
+                   and any(isinstance(v, ast.Constant) and str(v.value).endswith('(') for v in c.args[0].values) for c in ast.walk(ee))
+    ctx.shape('C16.Q3', 'HelperTypes(token_value)' in eps and fmt_type, fgd, ee, 'helpers are written by HelperTypes value and parsed by HelperTypes(value)', func='EntityDef.export', text='helper name coding')
     ok = "file.write('(bool)')" in ast.unparse(fgd.func('IODef.export')) and "VALUE_TYPE_LOOKUP['bool'] = ValueTypes.BOOL" in fgd.text
     ctx.shape('C16.Q3', ok, fgd, fgd.func('IODef.export'), 'I/O boolean is written as (bool), which the lookup table accepts', func='IODef.export', text='io bool alias')
     # ---- Q4 --------------------------------------------------------------------------------------------------
@@ -548,6 +580,11 @@ def run(ctx: Any, prog: Program) -> None:
 
 
 MUTANTS: List[Dict[str, Any]] = [
+    {'id': 'helper_lightcone_skips_default_outer', 'file': '_fgd_helpers.py', 'find': "        if self.color != '_light':\n            return [self.inner, self.outer, self.color]\n", 'replace': "        if self.color != '_light':\n            if self.outer == '_cone':\n                return [self.inner, self.color]\n            return [self.inner, self.outer, self.color]\n", 'expect': 'C16.Q6'},
+    {'id': 'helper_line_swaps_key_value', 'file': '_fgd_helpers.py', 'find': "            self.start_key,\n            self.start_value,\n        ]\n        if self.end_key is not None and self.end_value is not None:\n            args += [self.end_key, self.end_value]\n        return args", 'replace': "            self.start_value,\n            self.start_key,\n        ]\n        if self.end_key is not None and self.end_value is not None:\n            args += [self.end_key, self.end_value]\n        return args", 'expect': 'C16.Q6'},
+    {'id': 'helper_line_half_end_pair', 'file': '_fgd_helpers.py', 'find': "        if self.end_key is not None and self.end_value is not None:\n            args += [self.end_key, self.end_value]\n        return args", 'replace': "        if self.end_key is not None:\n            args.append(self.end_key)\n            if self.end_value is not None:\n                args.append(self.end_value)\n        return args", 'expect': 'C16.Q6'},
+    {'id': 'helper_sphere_append_style', 'file': '_fgd_helpers.py', 'find': "        if self.r != 255.0 or self.g != 255.0 or self.b != 255.0:\n            return [self.size_key, f'{self.r:g} {self.g:g} {self.b:g}']", 'replace': "        if self.r != 255.0 or self.g != 255.0 or self.b != 255.0:\n            out = [self.size_key]\n            out.append(f'{self.r:g} {self.g:g} {self.b:g}')\n            return out", 'expect': None},
+    {'id': 'iodef_index_of_decayed_type', 'file': '_engine_db.py', 'find': "    file.write(_fmt_8bit.pack(VALUE_TYPE_INDEX[iodef.type]))", 'replace': "    file.write(_fmt_8bit.pack(VALUE_TYPE_INDEX[{ValueTypes.TARG_DEST: ValueTypes.STRING}.get(iodef.type, iodef.type)]))", 'expect': 'C16.Q2'},
     {'id': 'count_len_keyvalues', 'file': '_engine_db.py', 'find': "        sum(1 for tag_map in ent.keyvalues.values() if tag_map),", 'replace': "        len(ent.keyvalues),", 'expect': 'C16.Q1'},
     {'id': 'header_counts_swapped', 'file': '_engine_db.py', 'find': "        sum(1 for tag_map in ent.inputs.values() if tag_map),\n        sum(1 for tag_map in ent.outputs.values() if tag_map),", 'replace': "        sum(1 for tag_map in ent.outputs.values() if tag_map),\n        sum(1 for tag_map in ent.inputs.values() if tag_map),", 'expect': 'C16.Q1'},
     {'id': 'kv_default_before_type', 'file': '_engine_db.py', 'find': "    name = from_dict()\n    disp_name = from_dict()\n    [value_ind] = file.read(1)", 'replace': "    name = from_dict()\n    [value_ind] = file.read(1)\n    disp_name = from_dict()", 'expect': 'C16.Q1'},
